@@ -4,6 +4,7 @@ import GrVerif.Proofs.LoadedPass
 import GrVerif.Proofs.ClassMap
 import GrVerif.Proofs.SilfLoad
 import GrVerif.Proofs.CodeLoop
+import GrVerif.Proofs.RulesLoad
 import GrVerif.Props.C13
 import GrVerif.Props.C14
 /-!
@@ -104,22 +105,24 @@ example : getClassGlyph { nClass := 1, nLinear := 1, offsets := [0, 1], data := 
 numbers; an accepted sub-table has its pass numbers in order (`sPass ≤ pPass ≤ jPass ≤ numPasses ≤ 128`), the attribute numbers
 below the font's attribute count, a well-formed class map (`ClassMapOK`, the hypothesis of `class_lookups_in_bounds`), and for
 each pass a byte range behind `passes_start` and inside the sub-table whose layout `readPass` places inside that range -/
-theorem silf_subtable_total (b : List Nat) (version numGlyphs numAttrs : Nat) (hasBoxes : Bool) :
-    ∃ r, readSilf b version numGlyphs numAttrs hasBoxes = .ok r ∧ ∀ t, r = .ok t → SilfOK b version numAttrs t :=
-  readSilf_total b version numGlyphs numAttrs hasBoxes
+theorem silf_subtable_total (b : List Nat) (version numGlyphs numAttrs : Nat) (hasBoxes : Bool) (numFeats : Nat) :
+    ∃ r, readSilf b version numGlyphs numAttrs hasBoxes numFeats = .ok r ∧ ∀ t, r = .ok t → SilfOK b version numAttrs t :=
+  readSilf_total b version numGlyphs numAttrs hasBoxes numFeats
 
 /-- **the sub-table offsets of the Silf table are read inside the table although their number is never tested against its size**
 (`Face::readGraphite` tests only `size ≥ 20`): the loop reaches entry `i + 1` only after `i + 1` sub-tables were accepted one
 behind the other, each longer than 20 bytes, so the table is by then known to extend beyond that entry -/
-theorem silf_subtable_offsets_in_bounds (b : List Nat) (version numGlyphs numAttrs : Nat) (hasBoxes : Bool) (numSilf : Nat) (hl : 20 ≤ b.length) :
-    ∃ r, readSilfSubs b version numGlyphs numAttrs hasBoxes (if version ≥ 0x00030000 then 12 else 8) numSilf 0 = .ok r ∧
+theorem silf_subtable_offsets_in_bounds (b : List Nat) (version numGlyphs numAttrs : Nat) (hasBoxes : Bool) (numFeats numSilf : Nat) (hl : 20 ≤ b.length) :
+    ∃ r, readSilfSubs b version numGlyphs numAttrs hasBoxes numFeats (if version ≥ 0x00030000 then 12 else 8) numSilf 0 = .ok r ∧
       ∀ l, r = .ok l → l.length = numSilf :=
-  readSilfSubs_total b version numGlyphs numAttrs hasBoxes _ rfl numSilf 0 (by split <;> omega) (fun v _ => by omega)
+  readSilfSubs_total b version numGlyphs numAttrs hasBoxes numFeats _ rfl numSilf 0 (by split <;> omega) (fun v _ => by omega)
 
-/-- **`Face::readGraphite` is total and in bounds for every byte string given as the Silf table** -/
-theorem silf_table_total (b : List Nat) (numGlyphs numAttrs : Nat) (hasBoxes : Bool) :
-    ∃ r, readSilfTable b numGlyphs numAttrs hasBoxes = .ok r :=
-  readSilfTable_total b numGlyphs numAttrs hasBoxes
+/-- **`Face::readGraphite` is total and in bounds for every byte string given as the Silf table** – the whole of it: the table
+header and the sub-table offsets, each sub-table (`silf_subtable_total`), its class map, and each pass from its first byte to its
+last (`pass_total`) including every rule's constraint and action code (`code_loader_total`) laid out in the program pool -/
+theorem silf_table_total (b : List Nat) (numGlyphs numAttrs : Nat) (hasBoxes : Bool) (numFeats : Nat) :
+    ∃ r, readSilfTable b numGlyphs numAttrs hasBoxes numFeats = .ok r :=
+  readSilfTable_total b numGlyphs numAttrs hasBoxes numFeats
 
 /-- **the code loader (`Machine::Code::Code` and its `decoder`) is total, in bounds, and its buffers suffice** – for every
 bytecode, every set of limits, constraint and action code, every pass type (rule length at most 254 for actions; `readRules`
@@ -131,8 +134,21 @@ in front of the data area (so the `memmove` that makes room for them never runs 
 the data area, and every instruction's class, feature, glyph-attribute, metric and slot-attribute operands are below the limits -/
 theorem code_loader_total (l : CodeLoad.Limits) (constraint : Bool) (pt : Nat) (bc : List Nat) (hrl : constraint = false → l.ruleLength ≤ 254) :
     ∃ r, CodeLoad.load l constraint pt bc = .ok r ∧ ∀ p, r = .ok (some p) →
-      p.instrs.length ≤ bc.length ∧ p.dataSize ≤ bc.length ∧ ∀ i ∈ p.instrs, CodeLoad.OperandsOK l i.1 i.2 :=
+      p.instrs.length ≤ bc.length ∧ p.dataSize ≤ bc.length ∧ (∀ i ∈ p.instrs, CodeLoad.OperandsOK l i.1 i.2) ∧
+      (constraint = true → p.instrs.length + (p.dataSize + 7) / 8 ≤ bc.length) :=
   CodeLoad.load_total l constraint pt bc hrl
+
+/-- **`Pass::readPass` is total and in bounds for every byte string** – layout, pass constraint, `readRanges`, `readRules`, the rule
+map and `readStates`, for every sub-table base, collision set-up, pass type and every limits of the code loader.  Beyond reads
+inside the pass this says that no `Machine::Code` of a rule – while it is decoded (instruction slots and parameter bytes at
+`prog_pool_free`) or when it is done (`8·(instructions + 1) + 8·⌈data/8⌉` bytes) – writes outside the program pool `m_progs`: the
+per-rule test `estimateCodeDataOut(action + constraint bytes, 2, sort) > pool left` reserves `9·(a + c) + 16 + 8·sort` bytes, an
+accepted action takes at most `9·a + 15` and an accepted constraint at most `8·c + 8` of them (`CodeLoad.load_total`), and
+`sort ≥ 1`.  An accepted pass has the layout of `LayoutOK` and rules of at most 63 slots with `pre-context < length`, pre-contexts
+inside the pass's bounds and code ranges inside the pass. -/
+theorem pass_total (b : List Nat) (base : Nat) (collOK : Bool) (f : FontLimits) (pt : Nat) :
+    ∃ r, readPassAll b base collOK f pt = .ok r ∧ ∀ P, r = .ok P → LayoutOK b P.layout ∧ ∀ x ∈ P.rules, RuleOK b P.layout x :=
+  readPassAll_total b base collOK f pt
 
 /-- **from the loader to the run time**: a program the code loader accepted against the class count of an accepted class map only
 ever hands `Silf::getClassGlyph` / `Silf::findClassIndex` class numbers for which every access to the class map is in bounds
@@ -147,7 +163,7 @@ theorem accepted_code_class_lookups_in_bounds (l : CodeLoad.Limits) (constraint 
   obtain ⟨r, hr, hall⟩ := CodeLoad.load_total l constraint pt bc hrl
   rw [hp] at hr
   cases hr
-  have hops := (hall p rfl).2.2
+  have hops := (hall p rfl).2.2.1
   constructor
   · intro hi
     have := (hops _ hi).1 rfl
@@ -179,11 +195,11 @@ def silfSummary (r : Except Loader.Fault (Except SilfErr (List SilfTable))) : Li
   match r with
   | .ok (.ok ts) => ts.map fun t => [t.fixed.numPasses, t.mid.passesStart, t.classAt, t.classes.nClass] ++ t.passes.flatMap fun s => [s.start, s.stop, s.pt]
   | _ => []
-example : silfSummary (readSilfTable smallSilf 8 8 false) = [[2, 68, 54, 2, 68, 215, 1, 215, 334, 3]] := by decide +kernel
+example : silfSummary (readSilfTable smallSilf 8 8 false 1) = [[2, 68, 54, 2, 68, 215, 1, 215, 334, 3]] := by decide +kernel
 /-- cut short by one byte it is refused: the last pass would end outside the table -/
-example : readSilfTable (smallSilf.take 345) 8 8 false = .ok (.error (.pass 1 Gen.Err.E_BADPASSEND)) := by decide +kernel
+example : readSilfTable (smallSilf.take 345) 8 8 false 1 = .ok (.error (.pass 1 Gen.Err.E_BADPASSEND)) := by decide +kernel
 /-- and a font with fewer glyph attributes than the table names is refused -/
-example : readSilfTable smallSilf 8 3 false = .ok (.error (.silf Gen.Err.E_BADABIDI)) := by decide +kernel
+example : readSilfTable smallSilf 8 3 false 1 = .ok (.error (.silf Gen.Err.E_BADABIDI)) := by decide +kernel
 
 /-- a class map with one linear class {5, 9} and one look-up class {3 ↦ 0, 8 ↦ 1} (16-bit offsets) -/
 def exMap : List Nat := [0, 2, 0, 1, 0, 10, 0, 14, 0, 30, 0, 5, 0, 9, 0, 2, 0, 2, 0, 1, 0, 0, 0, 3, 0, 0, 0, 8, 0, 1]
